@@ -239,7 +239,7 @@ theorem full_lines : (f : CFrag) → (b : ColBox) → (σ : Option Resume) → F
     | columns _ _ _ _ kids =>
       simp only [Full] at h
       simp only [fragLines, linesFrom]
-      exact h.2
+      exact h
   | .column _ _ _ _ _, b, σ => by
     intro h
     simp [Full] at h
